@@ -477,6 +477,38 @@ class Sym:
             elif cur[0] not in ("loop", "filled"):
                 env[d] = ("filled", cur)         # inside the loop the object keeps its identity
 
+    def _record_field(self, base, attr):
+        """field of a record built on the spot:  Record(a, b).x  is the argument the record stores as x -- for a namedtuple
+        declared at module level, and for a package class whose __init__ stores its parameters unchanged"""
+        if not (isinstance(base, tuple) and base):
+            return None
+        if base[0] == "phi":
+            a, b = self._record_field(base[2], attr), self._record_field(base[3], attr)
+            return mkphi(base[1], a, b) if a is not None and b is not None else None
+        if base[0] == "call" and isinstance(base[1], str) and "." not in base[1]:
+            r = self.prog.resolve_name(self.fi.module, base[1])
+            node = r[1] if r and r[0] == "const" else None
+            if isinstance(node, ast.Call) and (call_name(node) or "").split(".")[-1] == "namedtuple" and len(node.args) >= 2:
+                names = self.prog.try_fold(node.args[1], self.fi.module, default=None)
+                if isinstance(names, str):
+                    names = names.replace(",", " ").split()
+                if isinstance(names, (list, tuple)) and attr in names:
+                    i = list(names).index(attr)
+                    if i < len(base[2]):
+                        return base[2][i]
+                    kw = dict(base[3])
+                    return kw.get(attr)
+        if base[0] == "new":
+            ci = self.prog.classes.get(base[1])
+            if ci is not None:
+                from .region import ctor_fields
+                for pos, (fld, pn) in ctor_fields(ci).items():
+                    if fld == attr:
+                        if pos < len(base[2]):
+                            return base[2][pos]
+                        return dict(base[3]).get(pn)
+        return None
+
     def _literal_table(self, it):
         """entries (AST) of a tuple / list written out in the source: given directly or through a module-level name of this
         module that is assigned once; None otherwise or when it has more than 32 entries"""
@@ -604,6 +636,9 @@ class Sym:
                     v = prog.class_const(ci, e.attr)
                     if v is not None:
                         return ("const", v)
+            proj = self._record_field(base, e.attr)
+            if proj is not None:
+                return proj
             return ("attr", base, e.attr)
         if isinstance(e, ast.BinOp):
             op = OPNAMES.get(type(e.op), "?")
